@@ -19,6 +19,8 @@ enum Cfg {
     RootUnbound,
     /// the value at this level (0 = root) is an int instead of a map
     MidNotMap(usize),
+    /// the value at this level (0 = root) is null instead of a map
+    MidNull(usize),
 }
 
 const LEVEL_KEYS: [[&str; 3]; 4] = [["a", "size", "x1"], ["b", "map", "has"], ["c", "filter", "k"], ["d", "all", "z"]];
@@ -32,6 +34,11 @@ fn build(keys: &[&str], cfg: Cfg, leaf: &CelValue) -> Option<CelValue> {
         if let Cfg::MidNotMap(k) = cfg {
             if k == level {
                 return 7.into();
+            }
+        }
+        if let Cfg::MidNull(k) = cfg {
+            if k == level && !keys.is_empty() {
+                return CelValue::from_null();
             }
         }
         if keys.is_empty() {
@@ -61,6 +68,7 @@ fn configs(depth: usize) -> Vec<Cfg> {
         v.push(Cfg::LeafMissing);
         for k in 0..depth {
             v.push(Cfg::MidNotMap(k));
+            v.push(Cfg::MidNull(k));
         }
         for k in 0..depth.saturating_sub(1) {
             v.push(Cfg::MidMissing(k));
@@ -81,7 +89,7 @@ fn has_want(cfg: Cfg) -> HasWant {
     match cfg {
         Cfg::Present | Cfg::Null => HasWant::True,
         Cfg::LeafMissing | Cfg::MidMissing(_) | Cfg::RootUnbound => HasWant::False,
-        Cfg::MidNotMap(_) => HasWant::FalseOrErr,
+        Cfg::MidNotMap(_) | Cfg::MidNull(_) => HasWant::FalseOrErr,
     }
 }
 
@@ -173,6 +181,25 @@ pub fn run(ctx: &mut Ctx) {
                                 &format!("{} under configuration {:?}: expected has() to be {:?}, got {}", src, cfg, want, out.show()),
                                 json!({"source": src, "bindings": mon::binds_json(&binds), "configuration": format!("{:?}", cfg)}),
                             );
+                        }
+                        // the classification of a path cannot depend on how its fields are spelled: the same path with
+                        // plain field names (a.b.c.d) in the same configuration gives the same answer
+                        const PLAIN: [&str; 4] = ["a", "b", "c", "d"];
+                        if keys.iter().zip(PLAIN.iter()).any(|(k, p)| k != p) {
+                            let pkeys = &PLAIN[..keys.len()];
+                            let pval = build(pkeys, cfg, &leaf);
+                            let pbinds: Vec<(String, CelValue)> = pval.map(|v| vec![("r".to_string(), v)]).unwrap_or_default();
+                            let psrc = t.replace("{}", &format!("has({})", path_src(root, pkeys, forms)));
+                            let pout = mon::run1(&psrc, &pbinds);
+                            rep.eval();
+                            rep.count("has_spelling_pairs");
+                            if pout.canon_anyerr() != out.canon_anyerr() {
+                                rep.viol(
+                                    &format!("has-spelling|{}|{}|{}", format!("{:?}", cfg).replace(char::is_numeric, "#"), cname, rkind),
+                                    &format!("{} gives {} but the same path with plain field names, {}, gives {} (configuration {:?})", src, out.show(), psrc, pout.show(), cfg),
+                                    json!({"source": src, "plain": psrc, "bindings": mon::binds_json(&binds), "configuration": format!("{:?}", cfg)}),
+                                );
+                            }
                         }
                         rep.distinct(&format!("{}|{:?}|{}", src, cfg, canon(&leaf)), depth >= 1);
                     }
@@ -377,7 +404,7 @@ pub fn run(ctx: &mut Ctx) {
             if want.is_none() && !open {
                 match cfg {
                     Cfg::Present => want = Some(leaf),
-                    Cfg::MidNotMap(_) => open = true,
+                    Cfg::MidNotMap(_) | Cfg::MidNull(_) => open = true,
                     _ => {}
                 }
             }
